@@ -128,6 +128,12 @@ def gen_models(tier, seed, salt="c01", n_random=None, full_sizes=None):
                 k += 1
                 style = (STYLES + ("rot",))[k % 5]
                 yield _case(rng, names, edges, cards, style, modes[(k // 5 + k) % 3], "full" if n <= 3 else "sampled")
+    # integer node labels 0..n-1 on every DAG with 3 nodes (label 0 is falsy: `if not node` style tests must not be used on labels)
+    for edges in O.all_dags(3, O.node_names(3, "int")):
+        k += 1
+        if quick and k % 3:
+            continue
+        yield _case(rng, O.node_names(3, "int"), edges, _rand_cards(rng, O.node_names(3, "int")), "str", "pos", "full")
     # "twin sensor" models: two (or three) children of one cause with IDENTICAL CPDs - observing them in the same state
     # yields identical reduced factors, which set-based bookkeeping must still count once each
     for t in range(4 if quick else 24):
@@ -159,7 +165,7 @@ def gen_models(tier, seed, salt="c01", n_random=None, full_sizes=None):
     nr = n_random if n_random is not None else (24 if quick else 240)
     for i in range(nr):
         n = (4, 5, 5, 6)[i % 4] if quick else (5, 5, 6, 6)[i % 4]
-        names = O.node_names(n, "long" if i % 2 else "x")
+        names = O.node_names(n, ("long", "x", "int", "x")[i % 4])   # "int": labels 0..n-1 (0 is a falsy label)
         edges = O.random_dag(rng, n, rng.choice((0.3, 0.5, 0.7)), names)
         yield _case(rng, names, edges, _rand_cards(rng, names), (STYLES + ("rot",))[i % 5], modes[i % 3], "sampled")
 
@@ -270,7 +276,7 @@ def check_factor(phi, Q, spec, post, ctx):
     return None
 
 
-def run_query(model, spec, J, Q, ev, order, joint, lab, vlist=None):
+def run_query(model, spec, J, Q, ev, order, joint, lab, vlist=None, engine=None):
     from pgmpy.inference import VariableElimination
 
     weights = {}
@@ -281,7 +287,7 @@ def run_query(model, spec, J, Q, ev, order, joint, lab, vlist=None):
         return "skip"
     ctx_key = lab + (":virtual" if vlist else "")
     desc = f"query({Q}, evidence={ev}, virtual={[(v, [str(x) for x in ws]) for v, ws in (vlist or [])]}, elimination_order={order!r}, joint={joint})"
-    eng = VariableElimination(model)  # fresh engine per query (engine reuse belongs to C16)
+    eng = engine if engine is not None else VariableElimination(model)  # fresh engine per query unless the caller shares one
     res = eng.query(list(Q), evidence=dict(ev) or None, virtual_evidence=make_virtual(spec, vlist) if vlist else None,
                     elimination_order=order, joint=joint, show_progress=False)
     if joint:
@@ -331,6 +337,20 @@ def check_query(case):
                             "what": f"query({Q}, evidence={ev}, elimination_order={bad}) did not raise ValueError"}
                 except ValueError:
                     pass
+    # one long-lived engine: the answer to a question must not depend on the questions asked before - in particular not on an earlier
+    # question over the same variables with the roles of query and evidence exchanged
+    from pgmpy.inference import VariableElimination
+
+    shared = VariableElimination(model)
+    for Q, E in pairs[:12]:
+        if len(E) != 1 or len(Q) != 1:
+            continue
+        for (q, e) in ((Q, E), (E, Q)):
+            for ev in evidence_assignments(J, list(e), "sampled", rng, 1):
+                f = run_query(model, spec, J, list(q), ev, "greedy", True, "shared-engine", engine=shared)
+                if f and f != "skip":
+                    f["key"] = f["key"].replace("query:", "query:shared-engine:", 1) if "shared-engine" not in f["key"] else f["key"]
+                    return f
     return None
 
 
